@@ -26,7 +26,7 @@ class C13Pairs(Scenario):
         cfg.update({"kind": kind, "rel": rel, "a_disk": kind == "bloom" and rng.chance(1, 3),
                     "b_disk": kind == "bloom" and rng.chance(1, 3), "steps": rng.between(2, self.max_steps),
                     "universe": rng.choice((4, 8, 16)), "hseed2": rng.below(1 << 16),
-                    "hash2": rng.choice(("md5", "sha256", "sim", "dec_bytes"))})
+                    "hash2": rng.choice(("md5", "sha256", "sim", "dec_bytes", "agree_first", "agree_first"))})
         return cfg
 
     def gen_step(self, rng):
@@ -106,13 +106,27 @@ class C13Pairs(Scenario):
         self.n_gen = 0
         self.env = structs.Env(self.ctx, cfg, need_fs=cfg["kind"] == "bloom")
         self.disk = []
-        self.hf2 = seams.make_list_hash(cfg["hash2"], cfg["hseed2"], 0)
-        if cfg["rel"] == "diff_hash":
-            from probables.hashes import default_fnv_1a
+        from probables.hashes import default_fnv_1a
 
-            h1 = (self.env.hf or default_fnv_1a)("test", 8)
-            h2 = self.hf2("test", 8)
-            if h1 == h2:  # the strategies must differ on the library's probe key
+        base_hf = self.env.hf or default_fnv_1a
+        if cfg["hash2"] == "agree_first":
+            # same first hash as the first strategy, different ones afterwards
+            def hf2(key, depth=1):
+                hs = base_hf(key, depth)
+                return hs[:1] + [(x ^ 0x5BD1E995A5A5A5A5) & 0xFFFFFFFFFFFFFFFF for x in hs[1:]]
+
+            self.hf2 = hf2
+            self.ctx.probe("strategies_agree_on_first_hash")
+        else:
+            self.hf2 = seams.make_list_hash(cfg["hash2"], cfg["hseed2"], 0)
+        if cfg["rel"] == "diff_hash":
+            # the rule: operands are incompatible iff their strategies differ on the probe key at the depth in use
+            if cfg["kind"] == "cms":
+                sz = cfg["sizing"] if "width" in cfg["sizing"] else {"width": 5, "depth": 3}
+                depth = sz["depth"]
+            else:
+                depth = common.geometry(cfg["est"], cfg["rate"])[1]
+            if base_hf("test", depth) == self.hf2("test", depth):
                 cfg["rel"] = "compatible"
         if cfg["kind"] == "cms":
             sz = dict(cfg["sizing"])
